@@ -376,7 +376,7 @@ Proof.
   - intros Hx. destruct (dget st1 np) eqn:E1.
     + unfold dget, assign in Hx. unfold dget in E1. rewrite E1 in Hx. congruence.
     + rewrite (Hassign _ _ E1) in Hx. discriminate.
-  - intros Hx. destruct (H1 Hx) as [Ha Hb]. simpl in Hb.
+  - intros Hx. destruct (H1 Hx) as [Ha Hb]. cbn [andb] in Hb.
     assert (Hsame : forall q, q <> np -> dget st1 q = dget st q).
     { intros q Hq. rewrite Hst1. apply (e_other _ _ _ (scan_ext nd np (d :: ds) st true)). exact Hq. }
     assert (Hsame' : forall q, dget st1 q = dget st q).
@@ -469,8 +469,8 @@ Proof.
         right. right. eapply waiting_keep; [| apply (e_und _ _ _ E) | exact H].
         intros q Hq. apply (e_other _ _ _ E). intro; subst; contradiction.
   - intros r Hr. destruct (e_rnew _ _ _ E _ Hr) as [H|H]; auto.
-    destruct (e_undnew _ _ _ E _ _ H) as [H'|->]; eauto.
-  - intros q r Hr. destruct (e_undnew _ _ _ E _ _ Hr) as [H'|->]; eauto.
+    destruct (e_undnew _ _ _ E _ _ H) as [H' | ->]; eauto.
+  - intros q r Hr. destruct (e_undnew _ _ _ E _ _ Hr) as [H' | ->]; eauto.
   - apply (e_nodup _ _ _ E). exact I5.
   - intros p x Hp Hx. destruct (port_eq_dec p np) as [->|Hne].
     + destruct (dget st np) as [y|] eqn:E0.
@@ -478,3 +478,188 @@ Proof.
       * eapply just_influences; eauto. apply process_new; auto.
     + rewrite (e_other _ _ _ E _ Hne) in Hp. eauto.
 Qed.
+
+(* ------------------------------------------------------------------ *)
+(* termination: a lexicographic measure in one number                   *)
+
+Definition is_none (st : wstate) (p : port) : bool :=
+  match dget st p with None => true | Some _ => false end.
+
+Definition unassigned (n : netlist) (st : wstate) : nat := length (filter (is_none st) (all_outputs n)).
+
+Definition measure (n : netlist) (st : wstate) : nat :=
+  unassigned n st * (length (all_outputs n) + 1) + length (wretry st).
+
+Lemma filter_length_le : forall (f g : port -> bool) l,
+  (forall p, In p l -> g p = true -> f p = true) -> length (filter g l) <= length (filter f l).
+Proof.
+  induction l as [|y l IH]; intros H; simpl; auto.
+  assert (IH' : length (filter g l) <= length (filter f l)) by (apply IH; intros; apply H; auto; right; auto).
+  destruct (g y) eqn:Eg.
+  - rewrite (H y (or_introl eq_refl) Eg). simpl. lia.
+  - destruct (f y); simpl; lia.
+Qed.
+
+Lemma filter_length_lt : forall (f g : port -> bool) l p0,
+  (forall p, In p l -> g p = true -> f p = true) -> In p0 l -> f p0 = true -> g p0 = false ->
+  length (filter g l) < length (filter f l).
+Proof.
+  induction l as [|y l IH]; intros p0 H Hin Hf Hg; [contradiction|]. simpl.
+  assert (Hle : length (filter g l) <= length (filter f l)) by (apply filter_length_le; intros; apply H; auto; right; auto).
+  destruct Hin as [->|Hin].
+  - rewrite Hf, Hg. simpl. lia.
+  - assert (IH' : length (filter g l) < length (filter f l)) by (apply (IH p0); auto; intros; apply H; auto; right; auto).
+    destruct (g y) eqn:Eg.
+    + rewrite (H y (or_introl eq_refl) Eg). simpl. lia.
+    + destruct (f y); simpl; lia.
+Qed.
+
+Lemma filter_length_le_all : forall (f : port -> bool) l, length (filter f l) <= length l.
+Proof. induction l; simpl; auto. destruct (f a); simpl; lia. Qed.
+
+Lemma pop_inv : forall n todo st k r0,
+  Inv n None todo st -> k < length (wretry st) ->
+  Inv n (Some (nth k (wretry st) r0)) todo (mkW (wdom st) (wund st) (remove_nth k (wretry st)))
+  /\ In (nth k (wretry st) r0) (all_outputs n).
+Proof.
+  intros n todo st k r0 [I1 I2 I3 I4 I5 I6] Hk. split.
+  - constructor; auto.
+    + intros p Hp Hn. destruct (I2 p Hp Hn) as [H|[H|[H|H]]]; try discriminate; auto.
+      destruct (nth_in_remove _ k r0 p Hk H) as [->|H']; auto.
+    + intros r Hr. apply I3. simpl in Hr. eapply remove_nth_incl; eauto.
+    + simpl. apply remove_nth_nodup. exact I5.
+  - apply I3. apply nth_In. exact Hk.
+Qed.
+
+Lemma process_measure : forall n todo np s,
+  Inv n (Some np) todo s -> In np (all_outputs n) -> measure n (process n np s) <= measure n s.
+Proof.
+  intros n todo np s HI Hv.
+  pose proof (process_inv n todo np s Hv HI) as HI'.
+  pose proof (process_ext n np s) as E.
+  set (s' := process n np s) in *.
+  assert (Hsame : dget s' np = dget s np -> measure n s' <= measure n s).
+  { intros Hd. unfold measure. rewrite (e_same _ _ _ E Hd).
+    assert (unassigned n s' = unassigned n s); [|lia].
+    unfold unassigned. f_equal. apply filter_ext. intros p. unfold is_none.
+    destruct (port_eq_dec p np) as [->|Hne]; [rewrite Hd | rewrite (e_other _ _ _ E _ Hne)]; reflexivity. }
+  destruct (dget s np) as [y|] eqn:E0.
+  - apply Hsame. apply (e_mono _ _ _ E). exact E0.
+  - destruct (dget s' np) as [x|] eqn:E1; [|apply Hsame; reflexivity].
+    assert (Hu : unassigned n s' < unassigned n s).
+    { unfold unassigned. apply (filter_length_lt _ _ _ np); auto.
+      - intros p _. unfold is_none. destruct (dget s p) eqn:Ep; auto.
+        rewrite (e_mono _ _ _ E _ _ Ep). auto.
+      - unfold is_none. rewrite E0. reflexivity.
+      - unfold is_none. rewrite E1. reflexivity. }
+    assert (Hr : length (wretry s') <= length (all_outputs n)).
+    { apply NoDup_incl_length; [apply (i_nodup _ _ _ _ HI') | intros r Hr; apply (i_rval _ _ _ _ HI' r Hr)]. }
+    unfold measure. nia.
+Qed.
+
+Lemma drain_inv : forall n ch todo fuel st,
+  Inv n None todo st -> measure n st < fuel ->
+  Inv n None todo (drain n ch fuel st) /\ wretry (drain n ch fuel st) = [].
+Proof.
+  induction fuel as [|f IH]; intros st HI Hm; [lia|]. simpl.
+  destruct (wretry st) as [|r0 rl] eqn:Er; [split; auto|].
+  set (k := if ch (r0 :: rl) <? length (r0 :: rl) then ch (r0 :: rl) else 0).
+  assert (Hk : k < length (wretry st)).
+  { rewrite Er. unfold k. destruct (ch (r0 :: rl) <? length (r0 :: rl)) eqn:E; [apply Nat.ltb_lt; exact E | simpl; lia]. }
+  destruct (pop_inv n todo st k r0 HI Hk) as [HI1 Hv]. rewrite Er in HI1, Hv.
+  apply IH.
+  - apply process_inv; auto.
+  - pose proof (process_measure _ _ _ _ HI1 Hv) as Hle.
+    assert (measure n (mkW (wdom st) (wund st) (remove_nth k (r0 :: rl))) < measure n st); [|lia].
+    unfold measure, unassigned, is_none, dget. simpl wdom. simpl wretry. rewrite Er.
+    rewrite Er in Hk. pose proof (remove_nth_length (r0 :: rl) k Hk). lia.
+Qed.
+
+Lemma outer_inv : forall n ch fuel order st,
+  (forall p, In p order -> In p (all_outputs n)) ->
+  Inv n None order st -> wretry st = [] ->
+  length (all_outputs n) * (length (all_outputs n) + 1) + 2 <= fuel ->
+  Inv n None [] (outer n ch fuel order st) /\ wretry (outer n ch fuel order st) = [].
+Proof.
+  induction order as [|np rest IH]; intros st Hv HI Hr Hf; simpl; [split; auto|].
+  set (st1 := mkW (wdom st) (wund st) [np]).
+  assert (HI1 : Inv n None rest st1).
+  { destruct HI as [I1 I2 I3 I4 I5 I6]. constructor; auto.
+    - intros p Hp Hn. destruct (I2 p Hp Hn) as [H|[H|[[->|H]|H]]]; try discriminate; auto.
+      + rewrite Hr in H. contradiction.
+      + right. left. left. reflexivity.
+    - intros r [<-|[]]. apply Hv. left; reflexivity.
+    - constructor; [intros []|constructor]. }
+  assert (Hm : measure n st1 < fuel).
+  { unfold measure. simpl. pose proof (filter_length_le_all (is_none st1) (all_outputs n)).
+    unfold unassigned. nia. }
+  destruct (drain_inv n ch rest fuel st1 HI1 Hm) as [HI2 Hr2].
+  apply IH; auto. intros p Hp. apply Hv. right; exact Hp.
+Qed.
+
+(* ------------------------------------------------------------------ *)
+(* at the end of the run the map satisfies the fixpoint characterisation *)
+
+Lemma inv_final : forall n st, Inv n None [] st -> wretry st = [] -> domains_ok n (dget st) = true.
+Proof.
+  intros n st [I1 I2 I3 I4 I5 I6] Hr. unfold domains_ok. apply forallb_forall. intros p Hp.
+  unfold out_ok. destruct (dget st p) as [x|] eqn:Ep.
+  - destruct (I1 p x Ep) as [_ (nd & Hg & Hj)]. rewrite Hg.
+    destruct (relation nd (snd p)) as [deps cks]. destruct deps as [|i ds]; destruct cks as [|c cs];
+      try (subst x; apply oscd_eqb_eq; reflexivity).
+    destruct Hj as [[-> Hall]|[Hx (q & Hq & Eq)]].
+    + apply forallb_forall. intros q Hq. apply oscd_eqb_eq. auto.
+    + destruct x; try congruence; apply existsb_exists; exists q; split; auto; apply oscd_eqb_eq; exact Eq.
+  - destruct (I2 p Hp Ep) as [H|[H|[H|H]]]; try discriminate; try contradiction.
+    + rewrite Hr in H. contradiction.
+    + destruct H as (H1 & (q0 & Hq0 & E0) & H3). unfold pdrivers in *.
+      destruct (get_node n (fst p)) as [nd|]; [|contradiction].
+      destruct (relation nd (snd p)) as [deps cks]. destruct cks as [|c cs]; [|contradiction].
+      destruct deps as [|i ds]; [contradiction|].
+      apply andb_true_iff. split.
+      * apply forallb_forall. intros q Hq. destruct (H1 q Hq) as [E|E]; rewrite E; reflexivity.
+      * apply existsb_exists. exists q0. split; auto. rewrite E0. reflexivity.
+Qed.
+
+Lemma inv_init : forall n order,
+  (forall p, In p (all_outputs n) -> In p order) -> Inv n None order (mkW pm_empty pm_empty []).
+Proof.
+  intros n order H. constructor; unfold dget, uget; simpl.
+  - intros p x Hp. rewrite pm_get_empty in Hp. discriminate.
+  - intros p Hp _. right. right. left. auto.
+  - intros r [].
+  - intros q r Hr. rewrite pm_list_empty in Hr. contradiction.
+  - constructor.
+  - intros p x Hp. rewrite pm_get_empty in Hp. discriminate.
+Qed.
+
+Lemma infer_state_inv : forall n ch order,
+  Permutation order (all_outputs n) ->
+  Inv n None [] (infer_state n ch order) /\ wretry (infer_state n ch order) = [].
+Proof.
+  intros n ch order HP. unfold infer_state. apply outer_inv.
+  - intros p Hp. eapply Permutation_in; eauto.
+  - apply inv_init. intros p Hp. eapply Permutation_in; [apply Permutation_sym; exact HP | exact Hp].
+  - reflexivity.
+  - unfold fuel_bound. lia.
+Qed.
+
+(* THE order-independence theorem *)
+Theorem worklist_ok : forall n ch order,
+  Permutation order (all_outputs n) -> domains_ok n (infer n ch order) = true.
+Proof.
+  intros n ch order HP. destruct (infer_state_inv n ch order HP) as [HI Hr].
+  exact (inv_final n _ HI Hr).
+Qed.
+
+(* every non-constant entry the worklist writes is backed by a real path, cycles or not *)
+Theorem worklist_justified : forall n ch order,
+  Permutation order (all_outputs n) -> justified n (infer n ch order).
+Proof.
+  intros n ch order HP. destruct (infer_state_inv n ch order HP) as [HI _].
+  intros p x _ Hp Hx. exact (i_infl _ _ _ _ HI p x Hp Hx).
+Qed.
+
+Theorem worklist_complete : forall n ch order,
+  wf n = true -> Permutation order (all_outputs n) -> ~ has_crossing n -> flagged n (infer n ch order) = [].
+Proof. intros. apply accepted; auto. apply worklist_justified; auto. Qed.
